@@ -191,9 +191,17 @@ class HttpWebServerPlugin(HttpProtocolHandlerPlugin):
         return False
 
     def on_client_data(self, raw: memoryview) -> None:
+        # Requests packed into a single read are handled one after
+        # the other, not by recursion (depth is bounded otherwise).
+        remaining: Optional[memoryview] = raw
+        while remaining is not None:
+            remaining = self._on_client_data(remaining)
+
+    def _on_client_data(self, raw: memoryview) -> Optional[memoryview]:
+        """Returns bytes which followed a pipelined request, if any."""
         self._post_request_data_size += len(raw)
         if self.route and self.route.on_client_data(self.request, raw) is None:
-            return
+            return None
         if self.switched_protocol == httpProtocolTypes.WEBSOCKET:
             # TODO(abhinavsingh): Do we really tobytes() here?
             # Websocket parser currently doesn't depend on internal
@@ -212,7 +220,7 @@ class HttpWebServerPlugin(HttpProtocolHandlerPlugin):
                     assert self.route
                     self.route.on_websocket_message(frame)
                 frame.reset()
-            return
+            return None
         # If 1st valid request was completed and it's a HTTP/1.1 keep-alive
         # And only if we have a route, parse pipeline requests
         if self.request.is_complete and \
@@ -245,8 +253,8 @@ class HttpWebServerPlugin(HttpProtocolHandlerPlugin):
                 # belong to the next pipelined request.
                 remaining = self.pipeline_request.buffer
                 self.pipeline_request = None
-                if remaining is not None:
-                    self.on_client_data(remaining)
+                return remaining
+        return None
 
     def on_response_chunk(self, chunk: List[memoryview]) -> List[memoryview]:
         self._response_size += sum(len(c) for c in chunk)
